@@ -27,10 +27,10 @@ type ecase struct {
 type expect int
 
 const (
-	returns  expect = iota // documented valid: must return
-	panics                 // documented invalid: must end in a package panic
-	noFault                // the documentation is silent: anything but a runtime fault
-	isTrue                 // a boolean fact that must hold (evaluated by the step itself)
+	returns expect = iota // documented valid: must return
+	panics                // documented invalid: must end in a package panic
+	noFault               // the documentation is silent: anything but a runtime fault
+	isTrue                // a boolean fact that must hold (evaluated by the step itself)
 )
 
 type ectx struct {
@@ -287,7 +287,9 @@ var scenarios = map[string]func(x *ectx){
 		x.do("empty.Grow.Dims", returns, func() {
 			x.check("empty.Grow.Dims", sameMat(g, mat.NewDense(n, m, nil)), "Grow of an empty matrix is not an n×m zero matrix")
 		})
-		x.do("empty.Grow(0,0)", returns, func() { x.check("empty.Grow(0,0)", z.Grow(0, 0) == mat.Matrix(&z), "Grow(0,0) does not return the receiver") })
+		x.do("empty.Grow(0,0)", returns, func() {
+			x.check("empty.Grow(0,0)", z.Grow(0, 0) == mat.Matrix(&z), "Grow(0,0) does not return the receiver")
+		})
 		d := x.dense(n, m)
 		want := mat.DenseCopyOf(d)
 		x.do("Grow", returns, func() { g = d.Grow(1, 2) })
@@ -328,7 +330,9 @@ var scenarios = map[string]func(x *ectx){
 		x.do("view-beyond-cap", panics, func() { v.Slice(0, 2, 0, 1) })
 		x.do("view-beyond-cap-cols", panics, func() { v.Slice(0, 1, 0, 2) })
 		w := d.Slice(0, 1, 0, 1).(*mat.Dense)
-		x.do("view-to-cap", returns, func() { x.check("view-to-cap", sameMat(w.Slice(0, n, 0, m), d), "slice of a view up to its capacity differs from the parent") })
+		x.do("view-to-cap", returns, func() {
+			x.check("view-to-cap", sameMat(w.Slice(0, n, 0, m), d), "slice of a view up to its capacity differs from the parent")
+		})
 		vec := x.vec(n)
 		x.do("SliceVec-full", returns, func() { x.check("SliceVec-full", sameMat(vec.SliceVec(0, n), vec), "full SliceVec differs") })
 		x.do("SliceVec-last", returns, func() { vec.SliceVec(n-1, n) })
@@ -363,6 +367,118 @@ var scenarios = map[string]func(x *ectx){
 		x.do("TriDense.Copy(square)", returns, func() { t.Copy(x.dense(m, m)) })
 		x.do("TriDense.Copy(tri)", returns, func() { t.Copy(x.tri(m, x.rng.Intn(2) == 0)) })
 		x.do("TriDense.Copy(sym)", returns, func() { t.Copy(s2) })
+		// non-square sources: only the overlap with the receiver's triangle is copied
+		for _, kind := range []mat.TriKind{mat.Upper, mat.Lower} {
+			kind := kind
+			x.do("TriDense.Copy(non-square)", returns, func() { x.tri(n+1, kind).Copy(x.dense(n+1, 1)) })
+			x.do("TriDense.Copy(non-square)", returns, func() { x.tri(n+1, kind).Copy(x.dense(1, n+1)) })
+			x.do("TriDense.Copy(non-square)", returns, func() { x.tri(n+1, kind).Copy(plainMat{x.dense(n+1, 1)}) })
+			x.do("TriDense.Copy(non-square)", returns, func() { x.tri(n+1, kind).Copy(plainMat{x.dense(1, n+1)}) })
+		}
+	},
+	// Vector arguments that do not expose a raw vector are valid Vectors.
+	"plain-vector-operands": func(x *ectx) {
+		n := x.c.N
+		pv := func() mat.Vector { return plainVec{x.vec(n)} }
+		spd := mat.NewSymDense(n, nil)
+		for i := 0; i < n; i++ {
+			spd.SetSym(i, i, float64(n)+2)
+			for j := i + 1; j < n; j++ {
+				spd.SetSym(i, j, 0.5)
+			}
+		}
+		var ch mat.Cholesky
+		x.do("Cholesky.Factorize", returns, func() { x.check("Cholesky.Factorize", ch.Factorize(spd), "SPD matrix rejected") })
+		x.do("Cholesky.SymRankOne", returns, func() { var c2 mat.Cholesky; c2.SymRankOne(&ch, 0.5, pv()) })
+		x.do("Cholesky.SymRankOne", returns, func() { var c2 mat.Cholesky; c2.SymRankOne(&ch, -1e-3, pv()) })
+		x.do("Cholesky.SymRankOne", returns, func() { var c2 mat.Cholesky; c2.SymRankOne(&ch, 0, pv()) })
+		x.do("Cholesky.SolveVecTo", returns, func() { var v mat.VecDense; _ = ch.SolveVecTo(&v, pv()) })
+		x.do("Cholesky.ExtendVecSym", returns, func() { var c2 mat.Cholesky; c2.ExtendVecSym(&ch, plainVec{x.vec(n + 1)}) })
+		var lu mat.LU
+		x.do("LU.Factorize", returns, func() { lu.Factorize(spd) })
+		x.do("LU.SolveVecTo", returns, func() { var v mat.VecDense; _ = lu.SolveVecTo(&v, false, pv()) })
+		x.do("LU.RankOne", returns, func() { var l2 mat.LU; l2.RankOne(&lu, 0.5, pv(), pv()) })
+		x.do("Dense.RankOne", returns, func() { var d mat.Dense; d.RankOne(spd, 2, pv(), pv()) })
+		x.do("Dense.Outer", returns, func() { var d mat.Dense; d.Outer(2, pv(), pv()) })
+		x.do("SymDense.SymRankOne", returns, func() { var s mat.SymDense; s.SymRankOne(spd, 2, pv()) })
+		x.do("SymDense.RankTwo", returns, func() { s := mat.NewSymDense(n, nil); s.RankTwo(spd, 2, pv(), pv()) })
+		x.do("VecDense.ops", returns, func() {
+			var v mat.VecDense
+			v.AddVec(pv(), pv())
+			v.SubVec(pv(), x.vec(n))
+			v.MulElemVec(x.vec(n), pv())
+			v.DivElemVec(pv(), pv())
+			v.ScaleVec(2, pv())
+			v.AddScaledVec(pv(), 0.5, pv())
+			v.MulVec(spd, pv())
+			_ = v.SolveVec(spd, pv())
+			v.CopyVec(pv())
+			v.CloneFromVec(pv())
+			mat.Dot(pv(), pv())
+			mat.Inner(pv(), spd, pv())
+		})
+		x.do("QR.SolveVecTo", returns, func() { var qr mat.QR; qr.Factorize(spd); var v mat.VecDense; _ = qr.SolveVecTo(&v, false, pv()) })
+		x.do("LQ.SolveVecTo", returns, func() { var lq mat.LQ; lq.Factorize(spd); var v mat.VecDense; _ = lq.SolveVecTo(&v, true, pv()) })
+		x.do("SVD.SolveVecTo", returns, func() {
+			var svd mat.SVD
+			svd.Factorize(spd, mat.SVDFull)
+			var v mat.VecDense
+			svd.SolveVecTo(&v, pv(), n)
+		})
+		x.do("Tridiag.SolveVecTo", returns, func() {
+			td := mat.NewTridiag(n, nil, nil, nil)
+			for i := 0; i < n; i++ {
+				td.SetBand(i, i, 3)
+			}
+			var v mat.VecDense
+			_ = td.SolveVecTo(&v, false, pv())
+			v.Reset()
+			td.MulVecTo(&v, true, pv())
+		})
+		x.do("BandDense.MulVecTo", returns, func() { var v mat.VecDense; mat.NewBandDense(n, n, 0, n-1, nil).MulVecTo(&v, false, pv()) })
+		x.do("SymBandDense.MulVecTo", returns, func() { var v mat.VecDense; mat.NewSymBandDense(n, n-1, nil).MulVecTo(&v, false, pv()) })
+	},
+	// Every sibling of RankTwo (RankOne, SymRankOne, SymRankK) accepts an empty
+	// receiver: "Empty matrices are used to allow the destination of a matrix
+	// operation to assume the correct size automatically."
+	"empty-receiver-rank-updates": func(x *ectx) {
+		n := x.c.N
+		a := x.sym(n)
+		x.do("Dense.RankOne", returns, func() { var d mat.Dense; d.RankOne(x.dense(n, x.c.M), 2, x.vec(n), x.vec(x.c.M)) })
+		x.do("SymDense.SymRankOne", returns, func() { var s mat.SymDense; s.SymRankOne(a, 2, x.vec(n)) })
+		x.do("SymDense.SymRankK", returns, func() { var s mat.SymDense; s.SymRankK(a, 2, x.dense(n, x.c.M)) })
+		x.do("SymDense.SymOuterK", returns, func() { var s mat.SymDense; s.SymOuterK(2, x.dense(n, x.c.M)) })
+		x.do("SymDense.RankTwo", returns, func() { var s mat.SymDense; s.RankTwo(a, 2, x.vec(n), x.vec(n)) })
+		// a of another size than x and y: the formula has no meaning; the documentation is silent
+		x.do("SymDense.RankTwo(larger-a)", noFault, func() { mat.NewSymDense(n, nil).RankTwo(x.sym(n+1), 2, x.vec(n), x.vec(n)) })
+		x.do("SymDense.RankTwo(smaller-a)", noFault, func() { mat.NewSymDense(n+1, nil).RankTwo(x.sym(n), 2, x.vec(n+1), x.vec(n+1)) })
+	},
+	// CDense element access: the same contract as Dense.
+	"cdense-index": func(x *ectx) {
+		n, m := x.c.N, x.c.M
+		c := mat.NewCDense(n, m, nil)
+		x.do("sweep", returns, func() {
+			for i := 0; i < n; i++ {
+				for j := 0; j < m; j++ {
+					c.Set(i, j, complex(float64(i), float64(j)))
+					if c.At(i, j) != complex(float64(i), float64(j)) || c.H().At(j, i) != complex(float64(i), -float64(j)) {
+						x.check("sweep", false, "CDense At/Set/H disagree at (%d,%d)", i, j)
+					}
+				}
+			}
+		})
+		for _, ij := range [][2]int{{-1, 0}, {0, -1}, {n, 0}, {0, m}, {n, m}, {math.MinInt64, 0}, {0, math.MaxInt64}} {
+			ij := ij
+			lbl := fmt.Sprintf("(%s,%s)", idxName(ij[0], n), idxName(ij[1], m))
+			x.do("At"+lbl, panics, func() { c.At(ij[0], ij[1]) })
+			x.do("Set"+lbl, panics, func() { c.Set(ij[0], ij[1], 1) })
+			x.do("H.At"+lbl, panics, func() { c.H().At(ij[1], ij[0]) })
+		}
+		x.do("NewCDense(0,1)", panics, func() { mat.NewCDense(0, 1, nil) })
+		x.do("NewCDense(1,-1)", panics, func() { mat.NewCDense(1, -1, nil) })
+		x.do("NewCDense(short)", panics, func() { mat.NewCDense(n, m, make([]complex128, n*m+1)) })
+		x.do("CDense{}.IsEmpty", returns, func() { var z mat.CDense; x.check("CDense{}.IsEmpty", z.IsEmpty(), "zero CDense not empty") })
+		x.do("CDense{}.At", panics, func() { var z mat.CDense; z.At(0, 0) })
 	},
 	// Constructors with nil data allocate zero matrices; 1×1 instances of every
 	// type support the whole read-only interface.
@@ -523,7 +639,10 @@ var scenarios = map[string]func(x *ectx){
 		x.do("Cholesky{}.Reset", returns, func() { var ch mat.Cholesky; ch.Reset() })
 		x.do("Cholesky{}.IsEmpty", returns, func() { var ch mat.Cholesky; x.check("Cholesky{}.IsEmpty", ch.IsEmpty(), "zero Cholesky not empty") })
 		x.do("Cholesky{}.Dims", noFault, func() { var ch mat.Cholesky; ch.Dims() })
-		x.do("Cholesky{}.RawU", returns, func() { var ch mat.Cholesky; x.check("Cholesky{}.RawU", ch.RawU() == nil, "RawU of an unfactorized Cholesky is not nil") })
+		x.do("Cholesky{}.RawU", returns, func() {
+			var ch mat.Cholesky
+			x.check("Cholesky{}.RawU", ch.RawU() == nil, "RawU of an unfactorized Cholesky is not nil")
+		})
 		x.do("QR{}.SolveTo", panics, func() { var qr mat.QR; var d mat.Dense; _ = qr.SolveTo(&d, false, one) })
 		x.do("QR{}.QTo", panics, func() { var qr mat.QR; var d mat.Dense; qr.QTo(&d) })
 		x.do("QR{}.Dims", returns, func() { var qr mat.QR; qr.Dims() })
@@ -532,7 +651,10 @@ var scenarios = map[string]func(x *ectx){
 		x.do("LQ{}.Dims", returns, func() { var lq mat.LQ; lq.Dims() })
 		x.do("SVD{}.Values", panics, func() { var svd mat.SVD; svd.Values(nil) })
 		x.do("SVD{}.UTo", panics, func() { var svd mat.SVD; var d mat.Dense; svd.UTo(&d) })
-		x.do("SVD{}.Kind", returns, func() { var svd mat.SVD; x.check("SVD{}.Kind", svd.Kind() == -1, "Kind of an unfactorized SVD is not -1") })
+		x.do("SVD{}.Kind", returns, func() {
+			var svd mat.SVD
+			x.check("SVD{}.Kind", svd.Kind() == -1, "Kind of an unfactorized SVD is not -1")
+		})
 		x.do("EigenSym{}.Values", panics, func() { var es mat.EigenSym; es.Values(nil) })
 		x.do("EigenSym{}.RawValues", returns, func() { var es mat.EigenSym; x.check("EigenSym{}.RawValues", es.RawValues() == nil, "not nil") })
 		x.do("BandCholesky{}.SolveTo", panics, func() { var ch mat.BandCholesky; var d mat.Dense; _ = ch.SolveTo(&d, one) })
@@ -724,6 +846,18 @@ var scenarios = map[string]func(x *ectx){
 		x.do("t.MulTri(t,t)", returns, func() { t.MulTri(t, t) })
 		x.do("t.InverseTri(t)", noFault, func() { _ = t.InverseTri(t) })
 	},
+}
+
+func idxName(i, n int) string {
+	switch {
+	case i == n:
+		return "n"
+	case i == math.MinInt64:
+		return "minint"
+	case i == math.MaxInt64:
+		return "maxint"
+	}
+	return fmt.Sprint(i)
 }
 
 var scenarioNames = func() []string {
